@@ -31,6 +31,8 @@ CONSTANTS
                       \* FALSE: the code as it is (trusts the top-level `errors` flag)
     CursorFix,        \* TRUE: repaired SearchAfterExtractor (cursor = `sort` of the last hit);
                       \* FALSE: the code as it is (regex on the raw text after the last "sort" token)
+    CursorRawDecode,  \* only read when CursorFix = FALSE.  TRUE: the partial repair of SearchAfterExtractor proposed with this check
+                      \* (right-most `"sort"` KEY whose value is a list, decoded by json's raw_decode); FALSE: the regex
     NullMemberFix,    \* TRUE: repaired parse(): null members of a requested flat object are kept; FALSE: dropped
     InputSets         \* the bounded input universe: a sequence of sets of inputs (defined in MC_FastParse)
 
@@ -141,10 +143,13 @@ ListFlagsEqualFull(tree, req, got) ==
     \A q \in req.lists :
         LET f == Lookup(tree, q.ps)
         IN IF f.t = "a" THEN [p |-> q.p, v |-> (f.el = <<>>)] \in got.lists ELSE ~Has(got.lists, q.p)
+(* a requested property / list inside a requested object is taken by the property branch: such requests are not made *)
+Inside(r, q) == Len(r.ps) > Len(q.ps) /\ SubSeq(r.ps, 1, Len(q.ps)) = q.ps
+Overlapped(q, req) == \E r \in req.props \cup req.lists \cup req.objs : Inside(r, q) \/ (r \in req.objs /\ Inside(q, r))
 FlatObjectsEqualFull(tree, req, got) ==
     \A q \in req.objs :
         LET f == Lookup(tree, q.ps)
-        IN /\ IsFlat(f) => [p |-> q.p, v |-> FlatSet(f)] \in got.objs
+        IN /\ (IsFlat(f) /\ ~Overlapped(q, req)) => [p |-> q.p, v |-> FlatSet(f)] \in got.objs
            /\ f.t # "o" => ~Has(got.objs, q.p)
 
 -----------------------------------------------------------------------------
@@ -254,7 +259,13 @@ RegexCursor(tree, lex) ==
             IN IF o.kind = "val" \/ lex.spc THEN NullV
                ELSE IF o.val.t = "a" /\ \A i \in 1..Len(o.val.el) : NoBracket(o.val.el[i], lex.brackets) THEN o.val
                ELSE ErrorV
-Cursor(tree, lex) == IF CursorFix THEN LastSort(tree) ELSE RegexCursor(tree, lex)
+(* the partial repair: scanning from the right, the first "sort" that is a key with a list value; immune to brackets and     *)
+(* whitespace, but a list-valued `sort` member serialised after the last hit's own sort is still taken                        *)
+RawDecodeCursor(tree) ==
+    LET occ == Occ(tree)
+        cand == {i \in 1..Len(occ) : occ[i].kind = "key" /\ occ[i].val.t = "a"}
+    IN IF cand = {} THEN NullV ELSE occ[SetMax(cand)].val
+Cursor(tree, lex) == IF CursorFix THEN LastSort(tree) ELSE IF CursorRawDecode THEN RawDecodeCursor(tree) ELSE RegexCursor(tree, lex)
 
 P(s) == Path(s)
 TotalProps == {P(<<"hits", "total">>), P(<<"hits", "total", "value">>), P(<<"hits", "total", "relation">>)}
@@ -306,22 +317,27 @@ SearchShape(tree) ==
           /\ LET s == Lookup(Hits(tree)[i], <<"sort">>)
              IN s.t = "absent" \/ (s.t = "a" /\ \A j \in 1..Len(s.el) : s.el[j].t = "s")
 
+(* the full parse has a scalar at that place => the extracted value is that scalar (what the code substitutes for *)
+(* an absent value is not the property's business)                                                               *)
+EqIfPresent(full, got) == full.t = "s" => got = full
+
 PagedClauses == {"CursorIsSortOfLastHit", "HitsTotalEqualsFull", "RelationEqualsFull", "TookEqualsFull", "TimedOutEqualsFull",
                  "PitIdEqualsFull", "AfterKeyEqualsFull"}
 PagedHolds(c, tree, pit, ht, path, isComposite, got) ==
-    LET pitFails == pit /\ ~Truthy(Lookup(tree, <<"pit_id">>))
-    IN IF got.exc = "pit" \/ pitFails THEN (c = "PitIdEqualsFull" => (got.exc = "pit") = pitFails)
-       ELSE CASE c = "CursorIsSortOfLastHit" -> isComposite \/ (got.exc = "none" /\ got.cursor = LastSort(tree))
-              [] c = "HitsTotalEqualsFull" -> got.exc # "none" \/ ht # Absent \/ got.total = (IF FullTotal(tree) = Absent THEN NullV ELSE FullTotal(tree))
-              [] c = "RelationEqualsFull" -> got.exc # "none" \/ ht # Absent \/ got.rel = FullRel(tree)
-              [] c = "TookEqualsFull" -> got.exc # "none" \/ got.took = Lookup(tree, <<"took">>)
-              [] c = "TimedOutEqualsFull" -> got.exc # "none" \/ got.timed_out = Lookup(tree, <<"timed_out">>)
-              [] c = "PitIdEqualsFull" -> got.exc # "none" \/ ~pit \/ got.pit_id = Lookup(tree, <<"pit_id">>)
+    LET fullPit == Lookup(tree, <<"pit_id">>)
+    IN IF got.exc = "pit" THEN (c = "PitIdEqualsFull" => ~Truthy(fullPit))       \* refused: only if there is no usable pit_id
+       ELSE CASE c = "CursorIsSortOfLastHit" ->
+                   isComposite \/ LastSort(tree) = NullV \/ (got.exc = "none" /\ got.cursor = LastSort(tree))
+              [] c = "HitsTotalEqualsFull" -> got.exc # "none" \/ ht # Absent \/ EqIfPresent(FullTotal(tree), got.total)
+              [] c = "RelationEqualsFull" -> got.exc # "none" \/ ht # Absent \/ EqIfPresent(Lookup(tree, <<"hits", "total", "relation">>), got.rel)
+              [] c = "TookEqualsFull" -> got.exc # "none" \/ EqIfPresent(Lookup(tree, <<"took">>), got.took)
+              [] c = "TimedOutEqualsFull" -> got.exc # "none" \/ EqIfPresent(Lookup(tree, <<"timed_out">>), got.timed_out)
+              [] c = "PitIdEqualsFull" -> got.exc # "none" \/ ~pit \/ EqIfPresent(fullPit, got.pit_id)
               [] c = "AfterKeyEqualsFull" ->
                    \/ ~isComposite \/ got.exc # "none"
                    \/ LET f == Lookup(tree, AfterPath(path).ps)
                       IN /\ IsFlat(f) => got.after = [t |-> "flat", kv |-> FlatSet(f)]
-                         /\ f.t # "o" => got.after = NullV
+                         /\ f.t = "absent" => got.after = NullV
 PagedViolated(tree, pit, ht, path, isComposite, got) ==
     IF SearchShape(tree) THEN {c \in PagedClauses : ~PagedHolds(c, tree, pit, ht, path, isComposite, got)} ELSE {}
 
@@ -350,23 +366,24 @@ ScrollNext == {P(<<"timed_out">>), P(<<"took">>)}
 HitsList == {P(<<"hits", "hits">>)}
 
 (* _scroll_query: size > 0, maxp = 0 means "all"; more pages requested than served -> exc "exhausted" *)
-ScrollFail(exc, clear) == [exc |-> exc, pages |-> 0, hits |-> Num(0), rel |-> Known("eq"), timed_out |-> FALSE, took |-> 0, clear |-> clear]
+ScrollFail(exc, clear, served) == [exc |-> exc, pages |-> 0, hits |-> Num(0), rel |-> Known("eq"), timed_out |-> FALSE, took |-> 0,
+                                   clear |-> clear, served |-> served]
 RECURSIVE ScrollLoop(_, _, _, _, _)
 ScrollLoop(pages, maxp, how, page, acc) ==       \* page: 0-based index of the page to fetch next
     IF maxp # 0 /\ page >= maxp THEN acc
-    ELSE IF page >= Len(pages) THEN ScrollFail("exhausted", acc.clear)
+    ELSE IF page >= Len(pages) THEN ScrollFail("exhausted", acc.clear, Len(pages))
     ELSE LET r == Extract(pages[page + 1], ScrollNext, HitsList, how)
              a == [acc EXCEPT !.timed_out = @ \/ Truthy(GetOr(r.props, "timed_out", FalseV)),
                               !.took = @ + N(GetOr(r.props, "took", Num(0))),
-                              !.pages = @ + 1]
+                              !.pages = @ + 1, !.served = @ + 1]
          IN IF GetOr(r.lists, "hits.hits", FALSE) THEN a ELSE ScrollLoop(pages, maxp, how, page + 1, a)
 ScrollQuery(pages, size, maxp, how) ==
-    IF pages = <<>> THEN ScrollFail("exhausted", FALSE)
+    IF pages = <<>> THEN ScrollFail("exhausted", FALSE, 0)
     ELSE LET r == Extract(pages[1], ScrollFirst, HitsList, how)
              hits == GetOr(r.props, "hits.total.value", GetOr(r.props, "hits.total", Num(0)))
              a == [exc |-> "none", pages |-> 1, hits |-> hits, rel |-> GetOr(r.props, "hits.total.relation", Known("eq")),
                    timed_out |-> Truthy(GetOr(r.props, "timed_out", FalseV)), took |-> N(GetOr(r.props, "took", Num(0))),
-                   clear |-> Truthy(GetOr(r.props, "_scroll_id", NullV))]
+                   clear |-> Truthy(GetOr(r.props, "_scroll_id", NullV)), served |-> 1]
          IN IF N(hits) < size \/ N(hits) = 0 THEN a ELSE ScrollLoop(pages, maxp, how, 1, a)
 
 (* _search_after_query: the cursor of page k is sent as search_after with request k+1; continues while         *)
@@ -374,26 +391,56 @@ ScrollQuery(pages, size, maxp, how) ==
 PageX(tree, lex, ht, how) ==
     IF how = "fast" THEN SearchAfterX(tree, lex, FALSE, ht)
     ELSE [Standard(FullProps(tree, PagedProps(FALSE, ht # Absent)), ht) EXCEPT !.cursor = LastSort(tree)]
-PagedFail(exc, sent) == [exc |-> exc, pages |-> 0, hits |-> NullV, rel |-> NullV, took |-> 0, timed_out |-> FALSE, sent |-> sent]
+PagedFail(exc, sent, served) == [exc |-> exc, pages |-> 0, hits |-> NullV, rel |-> NullV, took |-> 0, timed_out |-> FALSE, sent |-> sent,
+                                 served |-> served]
 RECURSIVE SearchAfterLoop(_, _, _, _, _, _, _, _)
 SearchAfterLoop(pages, lex, size, maxp, how, page, acc, pending) ==     \* page: 1-based number of the page to fetch next
     IF maxp # 0 /\ page > maxp THEN acc
     ELSE LET sent == IF page > 1 THEN Append(acc.sent, pending) ELSE acc.sent
-         IN IF page > Len(pages) THEN PagedFail("exhausted", sent)
+         IN IF page > Len(pages) THEN PagedFail("exhausted", sent, Len(pages))
             ELSE LET x == PageX(pages[page], lex, IF acc.hits = NullV THEN Absent ELSE acc.hits, how)
-                 IN IF x.exc # "none" THEN PagedFail(x.exc, sent)
+                 IN IF x.exc # "none" THEN PagedFail(x.exc, sent, page)
                     ELSE LET hits == IF acc.hits = NullV THEN x.total ELSE acc.hits
-                             a == [acc EXCEPT !.pages = page, !.hits = hits, !.sent = sent,
+                             a == [acc EXCEPT !.pages = page, !.served = page, !.hits = hits, !.sent = sent,
                                               !.rel = IF acc.hits = NullV THEN x.rel ELSE @,
                                               !.took = @ + N(x.took),
                                               !.timed_out = IF @ THEN @ ELSE Truthy(IF x.timed_out = Absent THEN NullV ELSE x.timed_out)]
-                         IN IF ~(hits.t = "s" /\ hits.ty = "number") THEN PagedFail("type", sent)     \* None / size -> TypeError
+                         IN IF ~(hits.t = "s" /\ hits.ty = "number") THEN PagedFail("type", sent, page)     \* None / size -> TypeError
                             ELSE IF N(hits) > page * size
                             THEN SearchAfterLoop(pages, lex, size, maxp, how, page + 1, a, x.cursor)
                             ELSE a
 SearchAfterQuery(pages, lex, size, maxp, how) ==
     SearchAfterLoop(pages, lex, size, maxp, how, 1,
-                    [exc |-> "none", pages |-> 0, hits |-> NullV, rel |-> NullV, took |-> 0, timed_out |-> FALSE, sent |-> <<>>], NullV)
+                    [exc |-> "none", pages |-> 0, hits |-> NullV, rel |-> NullV, took |-> 0, timed_out |-> FALSE, sent |-> <<>>, served |-> 0], NullV)
+
+(* ---- what the property says about the sub-runners, independent of WHEN they decide to stop: over the pages that ---- *)
+(* ---- were actually fetched (`served`), the reported quantities are those of a full parse                         ---- *)
+RECURSIVE SumTook(_, _)
+SumTook(pages, k) == IF k = 0 THEN 0 ELSE N(Lookup(pages[k], <<"took">>)) + SumTook(pages, k - 1)
+AnyTimedOut(pages, k) == \E j \in 1..k : Truthy(Lookup(pages[j], <<"timed_out">>))
+BodyViolated(tree, got) ==
+    LET sh(k) == Lookup(tree, <<"_shards", k>>)
+    IN IF ~SearchShape(tree) THEN {}
+       ELSE (IF EqIfPresent(FullTotal(tree), got.hits) THEN {} ELSE {"HitsTotalEqualsFull"})
+            \cup (IF EqIfPresent(Lookup(tree, <<"hits", "total", "relation">>), got.rel) THEN {} ELSE {"RelationEqualsFull"})
+            \cup (IF EqIfPresent(Lookup(tree, <<"took">>), got.took) THEN {} ELSE {"TookEqualsFull"})
+            \cup (IF EqIfPresent(Lookup(tree, <<"timed_out">>), got.timed_out) THEN {} ELSE {"TimedOutEqualsFull"})
+            \cup (IF /\ EqIfPresent(sh("total"), got.shards[1]) /\ EqIfPresent(sh("successful"), got.shards[2])
+                     /\ EqIfPresent(sh("skipped"), got.shards[3]) /\ EqIfPresent(sh("failed"), got.shards[4]) THEN {} ELSE {"ShardsEqualFull"})
+PagesViolated(pages, got) ==      \* common to scroll-search and paginated-search
+    LET k == got.served
+    IN IF got.exc # "none" \/ k = 0 THEN {}
+       ELSE (IF got.pages = k THEN {} ELSE {"PagesEqualFetched"})
+            \cup (IF EqIfPresent(FullTotal(pages[1]), got.hits) THEN {} ELSE {"HitsTotalEqualsFull"})
+            \cup (IF EqIfPresent(Lookup(pages[1], <<"hits", "total", "relation">>), got.rel) THEN {} ELSE {"RelationEqualsFull"})
+            \cup (IF got.took = SumTook(pages, k) THEN {} ELSE {"TookEqualsFull"})
+            \cup (IF got.timed_out = AnyTimedOut(pages, k) THEN {} ELSE {"TimedOutEqualsFull"})
+SentViolated(pages, got) ==       \* request j+1 carries the sort value of the last hit of page j
+    IF /\ \A j \in 1..Len(got.sent) : j <= Len(pages) /\ (LastSort(pages[j]) = NullV \/ got.sent[j] = LastSort(pages[j]))
+       /\ got.exc = "cursor" => (got.served = 0 \/ LastSort(pages[got.served]) = NullV)
+       /\ got.exc = "none" => Len(got.sent) = got.served - 1
+    THEN {} ELSE {"CursorIsSortOfLastHit"}
+ShapedPages(pages) == \A k \in 1..Len(pages) : SearchShape(pages[k]) /\ Lookup(pages[k], <<"took">>).t = "s"
 
 -----------------------------------------------------------------------------
 (* the function-like system: Init picks an input of the bounded universe, Eval applies the code             *)
@@ -417,11 +464,9 @@ Violated(i, o) ==
       [] i.kind = "bulk" -> BulkViolated(i.tree, i.size, i.unit, o.fast, o.det)
       [] i.kind = "sa" -> PagedViolated(i.tree, i.pit, i.ht, <<>>, FALSE, o)
       [] i.kind = "ca" -> PagedViolated(i.tree, i.pit, i.ht, i.path, TRUE, o)
-      [] i.kind = "body" -> IF SearchShape(i.tree) /\ o # BodyQuery(i.tree, "full") THEN {"BodyQueryEqualsFull"} ELSE {}
-      [] i.kind = "scroll" -> IF (\A k \in 1..Len(i.pages) : SearchShape(i.pages[k])) /\ o # ScrollQuery(i.pages, i.size, i.maxp, "full")
-                              THEN {"ScrollAccountingEqualsFull"} ELSE {}
-      [] i.kind = "paged" -> IF (\A k \in 1..Len(i.pages) : SearchShape(i.pages[k])) /\ o # SearchAfterQuery(i.pages, i.lex, i.size, i.maxp, "full")
-                             THEN {"SearchAfterAccountingEqualsFull"} ELSE {}
+      [] i.kind = "body" -> BodyViolated(i.tree, o)
+      [] i.kind = "scroll" -> IF ShapedPages(i.pages) THEN PagesViolated(i.pages, o) ELSE {}
+      [] i.kind = "paged" -> IF ShapedPages(i.pages) THEN PagesViolated(i.pages, o) \cup SentViolated(i.pages, o) ELSE {}
 
 Init == (\E k \in DOMAIN InputSets : inp \in InputSets[k]) /\ out = Absent /\ done = FALSE
 Eval == ~done /\ out' = Code(inp) /\ done' = TRUE /\ UNCHANGED inp
